@@ -3,7 +3,7 @@
 #define VERIF_C09_MODEL_H
 
 enum { M_SMALL = 1, M_FULL = 2, M_BOUND = 4, M_HUGE = 8, M_ORD = 16, M_ALIAS = 32, M_CORE = 64, M_BWIDE = 128 };          // alphabet masks
-enum { SS_SMALL = 0, SS_SMALLQ, SS_BOUND, SS_BOUNDW, SS_BOUNDD, SS_HUGE, SS_ORD, SS_ALIAS };                         // start-state sets
+enum { SS_SMALL = 0, SS_SMALLQ, SS_BOUND, SS_BOUNDW, SS_BOUNDD, SS_HUGE, SS_HUGED, SS_ORD, SS_ALIAS };                         // start-state sets
 enum { T = 0, U = 1 };
 
 enum OpKind {
